@@ -16,6 +16,7 @@ import (
 	"encoding/hex"
 	"encoding/json"
 	"fmt"
+	"io/fs"
 	"math/bits"
 	"os"
 	"path/filepath"
@@ -368,6 +369,16 @@ func newPool() *pool {
 	add("m.json", "n", []byte("42"))
 	add("img.png", "b", repoFile("format/png/testdata/4x4_palette.png"))
 	add("snd.mp3", "b", repoFile("format/mp3/testdata/headerfooter.mp3"))
+	// non-regular inputs (fifo, character device): have a Seek method that fails; fq must read them through
+	addNR := func(name, kind string, data []byte, mode fs.FileMode) {
+		p.files[name] = vfile{data: data, mode: mode}
+		p.fkind[name] = kind
+	}
+	addNR("fifo_a.json", "j", []byte("{\"a\":{\"b\":7}}\n"), fs.ModeNamedPipe)
+	addNR("fifo_n.json", "n", []byte("5\n"), fs.ModeNamedPipe)
+	addNR("fifo.png", "b", repoFile("format/png/testdata/4x4_palette.png"), fs.ModeNamedPipe)
+	addNR("fifo_u.bin", "u", undecBytes("fifo_u.bin"), fs.ModeNamedPipe)
+	addNR("cdev_a.json", "j", []byte("{\"a\":{\"b\":8}}"), fs.ModeDevice|fs.ModeCharDevice)
 	add("u1.bin", "u", undecBytes("u1.bin"))
 	add("u2.bin", "u", undecBytes("u2.bin"))
 	// paths for --raw-file / --argdecode / -o k=@path: never also input files, so that the fatal error
@@ -380,7 +391,9 @@ func newPool() *pool {
 		p.fkind[d] = "d"
 	}
 	for text, cls := range map[string]string{
-		".": "ok", ".a?": "ok", ".,.": "ok", "empty": "ok", "-1": "ok", "type": "ok", "[.]": "ok",
+		".": "ok", ".a?": "ok", ".,.": "ok", "empty": "okq", "-1": "ok", "type": "ok", "[.]": "ok",
+		// degenerate but valid programs: no root expression = identity (jq)
+		"def f: 1;": "ok", "": "ok", "# c": "ok", "def f: 1; # c": "ok", "def f: 1; def g: f;": "ok", "def f: .; f": "ok", " ": "ok",
 		progFnum: "fnum", progFnum2: "fnum", progFall: "fall", progFall2: "fall",
 		"(": "nc", ".a.": "nc", "nosuchfunc": "nc", "$nosuchvar": "nc",
 	} {
@@ -396,11 +409,20 @@ func newPool() *pool {
 	p.progs["null|error"] = "fall"
 	p.progs["(.missing? // null)|error"] = "fall"
 	p.progs["., (false|error)"] = "fall"
-	for name, text := range map[string]string{"p_ok.jq": ".a?", "p_fnum.jq": progFnum, "p_fall.jq": progFall2, "p_nc.jq": "(\n"} {
+	for name, text := range map[string]string{"p_ok.jq": ".a?", "p_fnum.jq": progFnum, "p_fall.jq": progFall2, "p_nc.jq": "(\n",
+		"p_defs.jq": "def f: 1;\ndef g: f;\n", "p_empty.jq": "", "p_comment.jq": "# only a comment\n", "p_defs_comment.jq": "# lib\ndef f: 1;\n"} {
 		p.files[name] = vfile{data: []byte(text)}
 		p.fkind[name] = "x"
-		p.pfile[name] = p.progs[strings.TrimSpace(text)]
+		if c, ok := p.progs[strings.TrimSpace(text)]; ok {
+			p.pfile[name] = c
+		} else {
+			p.pfile[name] = "ok" // the definition / comment only files
+		}
 	}
+	// a program file that is a fifo
+	p.files["p_ok.fifo"] = vfile{data: []byte(".a?"), mode: fs.ModeNamedPipe}
+	p.fkind["p_ok.fifo"] = "x"
+	p.pfile["p_ok.fifo"] = "ok"
 	return p
 }
 
